@@ -25,7 +25,8 @@ RULE = (
     "drawn scenario / permuted setter order / arbitrary nominal borehole height, find_design, find_design again, set_design "
     "again, an unrelated design on another manager in the same process, rebuild the manager; after every find_design the "
     "(coordinates, height, max/min EFT, search log) must be bit-identical (float.hex) to the same scenario run once in a fresh "
-    "subprocess with the canonical setter order. ghe_history: state machine on one real GHE (synthetic g family, 12-month "
+    "subprocess with the canonical setter order; manager_history_l3 repeats this with pygfunction (no seam) on small "
+    "near-square / rectangle scenarios and adds a 'same land, other fluid/grout/pipe' foreign run. ghe_history: state machine on one real GHE (synthetic g family, 12-month "
     "horizon): rules simulate(HYBRID), simulate(HOURLY), size(HYBRID), set height; every simulate(method) at height H must be "
     "bit-identical to a fresh object's first call with the same (method, H). Non-trivial = history with >= 2 find_designs / a "
     "permuted order / a foreign run (manager), or mixing methods or heights (ghe); distinct by hash of the trace. One "
@@ -60,20 +61,31 @@ def _ref(scn, layer="L2"):
 class ManagerInterp:
     """executes a trace of API-level steps; used by the state machine and by --replay"""
 
-    def __init__(self, pool):
+    def __init__(self, pool, layer="L2"):
         from ghedesigner.manager import GHEManager
 
+        self.layer = layer
         self.pool = pool
         self.mgr = GHEManager()
         self.scn = None  # configuration snapshotted at the last set_design
         self.finds = 0
         self.flags = set()
 
+    def _judge(self, out, scn, what):
+        """a design run later in the process must equal the same scenario run alone in a fresh process"""
+        got = fingerprint(out)
+        ref = _ref(scn, self.layer)
+        if got != ref:
+            diff = [k for k in set(got) | set(ref) if got.get(k) != ref.get(k)]
+            raise Violation(f"{what} differs from the same scenario in a fresh process in {sorted(diff)} "
+                            f"(H {got.get('H')} vs {ref.get('H')})",
+                            sig={"kind": "history_dependence", "fields": sorted(diff), "after": sorted(self.flags), "run": "foreign"})
+
     def step(self, st_):
         from ghedesigner.manager import GHEManager
 
         op = st_["op"]
-        with gs.layer_ctx("L2"), warnings.catch_warnings():
+        with gs.layer_ctx(self.layer), warnings.catch_warnings():
             warnings.simplefilter("ignore")
             if op == "configure":
                 scn = self.pool[st_["scn"]]
@@ -88,12 +100,30 @@ class ManagerInterp:
             elif op == "set_design_flow":
                 # set_design is a setter too: the last flow specification given is the one that counts
                 guarded(self.mgr.set_design, flow_rate=st_["flow"], flow_type_str=st_["flow_type"].lower(), what="set_design")
-                self.scn = dict(self.scn, flow=st_["flow"], flow_type=st_["flow_type"])
+                # the derived configuration keeps the loads that were given to the manager (their calibration depends on the flow)
+                self.scn = dict(self.scn, flow=st_["flow"], flow_type=st_["flow_type"],
+                                loads={"family": "explicit", "values": gs.loads_for(self.scn)})
                 self.flags.add("flow_spec_changed")
             elif op == "foreign":
                 other = GHEManager()
-                o = gs.run_design(self.pool[st_["scn"]], "L2", manager=other)
+                o = gs.run_design(self.pool[st_["scn"]], self.layer, manager=other)
                 self.flags.add("foreign_run")
+                self._judge(o, self.pool[st_["scn"]], "foreign design on another manager")
+            elif op == "foreign_variant":
+                # same land, soil, borehole and loads as the current configuration, but another fluid / grout / pipe / flow:
+                # anything remembered per field geometry only would leak from this run into the next find_design
+                v = json.loads(json.dumps(self.scn))
+                if st_.get("what", "grout_pipe") == "fluid":
+                    v["bhe"]["fluid"] = {"name": "PROPYLENEGLYCOL", "pct": 35.0} if v["bhe"]["fluid"]["name"] == "WATER" else \
+                        {"name": "WATER", "pct": 0.0}
+                else:  # same fluid and flow, only the materials inside the borehole differ
+                    v["bhe"]["grout"]["k"] = 0.7 if v["bhe"]["grout"]["k"] > 1.2 else 2.2
+                    if v["bhe"]["pipe"]["type"] != "COAXIAL":
+                        v["bhe"]["pipe"]["k"] = 0.3 if v["bhe"]["pipe"]["k"] > 0.45 else 0.6
+                v["loads"] = {"family": "explicit", "values": gs.loads_for(self.scn)}
+                o = gs.run_design(v, self.layer, manager=GHEManager())
+                self.flags.add("foreign_variant_run")
+                self._judge(o, v, "variant design (same land, other fluid/grout/pipe) on another manager")
             elif op == "rebuild":
                 self.mgr = GHEManager()
                 self.scn = None
@@ -117,7 +147,7 @@ class ManagerInterp:
                     out.max_eft = float(max(s.ghe.hp_eft))
                     out.min_eft = float(min(s.ghe.hp_eft))
                 got = fingerprint(out)
-                ref = _ref(self.scn)
+                ref = _ref(self.scn, self.layer)
                 self.finds += 1
                 if got != ref:
                     diff = [k for k in set(got) | set(ref) if got.get(k) != ref.get(k)]
@@ -142,12 +172,12 @@ def _pool():
 
 
 def check_manager(case, rec):
-    interp = ManagerInterp(case["pool"])
+    interp = ManagerInterp(case["pool"], case.get("layer", "L2"))
     for s in case["trace"]:
         interp.step(s)
         rec.evaluations += 1
     rec.evaluations -= 1
-    if interp.finds >= 2 or interp.flags & {"permuted_order", "foreign_run", "nominal_height_changed", "flow_spec_changed"}:
+    if interp.finds >= 2 or interp.flags & {"permuted_order", "foreign_run", "nominal_height_changed", "flow_spec_changed", "foreign_variant_run"}:
         rec.nontriv(case["trace"])
     for f in interp.flags:
         rec.cls("history_" + f)
@@ -169,15 +199,15 @@ def _machine_run(ctx, machine_cls, n_examples, steps):
         raise core.StopShard()
 
 
-def search_manager(ctx):
+def search_manager(ctx, layer="L2"):
     HOLDER["ctx"] = ctx
-    pool = _pool()
+    pool = _pool() if layer == "L2" else _pool_l3()
     known = ctx.known
 
     class M(RuleBasedStateMachine):
         def __init__(self):
             super().__init__()
-            self.interp = ManagerInterp(pool)
+            self.interp = ManagerInterp(pool, layer)
             self.trace = []
 
         skip = False
@@ -194,7 +224,7 @@ def search_manager(ctx):
                 if e is not None:
                     ctx.rec.excluded_known[e["id"]] = ctx.rec.excluded_known.get(e["id"], 0) + 1
                     return
-                HOLDER["last"] = ({"pool": pool, "trace": list(self.trace)}, v)
+                HOLDER["last"] = ({"pool": pool, "trace": list(self.trace), "layer": layer}, v)
                 raise
 
         @initialize(salt=st.integers(0, 2 ** 20), i=st.integers(0, len(pool) - 1), order=st.permutations([0, 1, 2, 3]),
@@ -235,6 +265,12 @@ def search_manager(ctx):
         def foreign(self, i):
             self.do({"op": "foreign", "scn": i})
 
+        @precondition(lambda self: self.interp.scn is not None)
+        @rule(what=st.sampled_from(["grout_pipe", "grout_pipe", "fluid"]))
+        def foreign_variant(self, what):
+            self.do({"op": "foreign_variant", "what": what})
+            self.do({"op": "find"})
+
         @rule()
         def rebuild(self):
             self.do({"op": "rebuild"})
@@ -243,7 +279,7 @@ def search_manager(ctx):
             it = self.interp
             if self.skip:
                 return
-            if it.finds >= 2 or it.flags & {"permuted_order", "foreign_run", "nominal_height_changed", "flow_spec_changed"}:
+            if it.finds >= 2 or it.flags & {"permuted_order", "foreign_run", "nominal_height_changed", "flow_spec_changed", "foreign_variant_run"}:
                 ctx.rec.nontriv(self.trace)
             for f in it.flags:
                 ctx.rec.cls("history_" + f)
@@ -251,7 +287,23 @@ def search_manager(ctx):
             ctx.rec.cls("machines")
             ctx.rec.sample({"trace": self.trace})
 
-    _machine_run(ctx, M, ctx.n(32, 480) + 1, 5 if ctx.tier == "quick" else 8)
+    if layer == "L2":
+        _machine_run(ctx, M, ctx.n(32, 480) + 1, 5 if ctx.tier == "quick" else 8)
+    else:
+        _machine_run(ctx, M, ctx.n(8, 48) + 1, 3 if ctx.tier == "quick" else 4)
+
+
+def _pool_l3():
+    """small, fast real-physics scenarios (near-square / rectangle, one-year horizon)"""
+    ctx = HOLDER["ctx"]
+    if "pool_l3" not in HOLDER:
+        HOLDER["pool_l3"] = gs.stratified(ctx, 4, methods=["NEARSQUARE", "RECTANGLE"], outcomes=["inside"], months=st.just(12),
+                                          label="c13pool_l3")
+    return HOLDER["pool_l3"]
+
+
+def search_manager_l3(ctx):
+    search_manager(ctx, "L3")
 
 
 # =========================================================================================== one GHE object
@@ -368,5 +420,6 @@ def search_ghe(ctx):
 
 SUBS = [
     Sub("manager_history", check_manager, search_manager, shards=lambda t: 16),
+    Sub("manager_history_l3", check_manager, search_manager_l3, shards=lambda t: 8),
     Sub("ghe_history", check_ghe, search_ghe, shards=lambda t: 12),
 ]
